@@ -157,7 +157,44 @@ func checkC02(p *Prog, r *Report) {
 	p.outputHashRecalcRule(r, a, "E5.restore-verified")
 	importRules(p, r, checkC09, "fs/", "E5.recalc-reads-content")
 	// the compressed directory cache must store and restore the same tree shape
-	importRules(p, r, checkC12, "cache/", "E9.archive-writer-reader", "E9.link-both-ways")
+	importRules(p, r, checkC12, "cache/", "E9.archive-writer-reader", "E9.link-both-ways", "E5.retrieve-clears-the-way")
+	// what sits in plz-out may be a hard link into a cache entry (the directory cache stores and restores by link):
+	// the metadata file is replaced by unlink + create, never truncated and rewritten in place
+	if stm := p.Fn("build", "StoreTargetMetadata"); stm == nil {
+		r.unresolved("E8.cached-file-replaced-not-rewritten", "build.StoreTargetMetadata")
+	} else {
+		n, bad := 0, 0
+		var site token.Pos
+		eachInstr(stm, false, func(_ *ssa.Function, i ssa.Instruction) {
+			c, ok := i.(*ssa.Call)
+			if !ok || !(isCallTo(c, "os.Create", "os.OpenFile", "os.WriteFile", "fs.OpenDirFile")) {
+				return
+			}
+			n++
+			path := c.Call.Args[0]
+			unlinked := false
+			eachInstr(stm, false, func(_ *ssa.Function, j ssa.Instruction) {
+				rc, ok := j.(*ssa.Call)
+				if !ok || !isCallTo(rc, "fs.RemoveAll", "os.RemoveAll", "os.Remove") || !instrDominates(rc, c) {
+					return
+				}
+				if rc.Call.Args[0] == path || (derivesFromValue(path, rc.Call.Args[0]) || derivesFromValue(rc.Call.Args[0], path)) {
+					if k, isNil := errKnown(factsAt(c), resultsOf(rc, 0)); k && isNil {
+						unlinked = true
+					}
+				}
+			})
+			if !unlinked {
+				bad++
+				site = c.Pos()
+			}
+		})
+		if n == 0 {
+			r.unresolved("E8.cached-file-replaced-not-rewritten", "the call that creates the metadata file in StoreTargetMetadata")
+		} else {
+			r.check(bad == 0, "E8.cached-file-replaced-not-rewritten", "the metadata file is unlinked before it is written again", p.pos(site), fnName(stm), "the create is dominated by a successful RemoveAll of the same path", "StoreTargetMetadata truncates and rewrites the existing metadata file in place: with the (uncompressed) directory cache that file is the same inode as the metadata inside the cache entry of the previous state, so building state B rewrites what is stored for state A, and restoring A later yields B's metadata (wrong optional outputs / output directories / post-build output)")
+		}
+	}
 	// (4) cache branch of buildTarget
 	rule = "E5.cache-branch-success"
 	{
